@@ -24,7 +24,7 @@ from wire.container import pcap_bytes, pcapng_bytes
 
 RES = [None, 3, 6, 9, 0x80 | 10, 0x80 | 20]
 OFFS = [None, 0, 3600]
-EXTRA = [(), ("nrb",), ("isb", "custom"), ("custom", "nrb", "isb")]
+EXTRA = [(), ("nrb",), ("isb", "custom"), ("custom", "nrb", "isb"), ("spb",), ("spb", "nrb", "spb")]   # spb: a Simple Packet Block holding a frame of no connection
 
 
 def variants(quick, rng):
@@ -37,17 +37,23 @@ def variants(quick, rng):
     # two interfaces in one section (e.g. merged captures), each with its own resolution / offset; packets alternate between them
     two = [dict(fmt="pcapng", le=le, tsresol=r1, tsoffset=o1, extra=(), where="start", pre=False, shb=False, second_if=[r2, o2])
            for le in (True, False) for r1, r2 in ((None, 9), (6, 3), (9, 0x80 | 20), (3, None)) for o1, o2 in ((None, None), (None, 3600), (3600, 0))]
-    return vs + allv + (two if not quick else rng.sample(two, 8))
+    # the secrets travel inside the capture (a decryption secrets block at any legal position, also before the first interface description)
+    dsb = [dict(fmt="pcapng", le=le, tsresol=r, tsoffset=None, extra=e, where="spread", pre=False, shb=False, dsb=w)
+           for le in (True, False) for r in (None, 9) for e in ((), ("nrb", "isb")) for w in ("pre", "start", "mid", "end")]
+    return vs + allv + (two if not quick else rng.sample(two, 8)) + (dsb if not quick else rng.sample(dsb, 10))
 
 
-def render(pkts, v):
+def render(pkts, v, kl=""):
     if v["fmt"] == "pcap":
         return pcap_bytes(pkts, le=v["le"], nano=v.get("nano", False)), True
     n = len(pkts)
     pos = {"start": [0] * 3, "mid": [n // 2] * 3, "end": [n] * 3, "spread": [1, n // 2, n]}[v["where"]]
     extra = [(pos[i], k) for i, k in enumerate(v["extra"])]
+    w = v.get("dsb")
+    pre = (("nrb",) if v["pre"] and v["extra"] else ()) + ((("dsb", kl.encode()),) if w == "pre" else ())
     return pcapng_bytes(pkts, le=v["le"], tsresol=v["tsresol"], tsoffset=v["tsoffset"], extra=extra,
-                        pre_idb=("nrb",) if v["pre"] and v["extra"] else (), shb_opts=v["shb"],
+                        dsbs=[({"start": 0, "mid": n // 2, "end": n}[w], kl.encode())] if w in ("start", "mid", "end") else (),
+                        pre_idb=pre, shb_opts=v["shb"],
                         second_if=tuple(v["second_if"]) if v.get("second_if") else None), False
 
 
@@ -63,8 +69,8 @@ def _one(job):
     pkts = [(t0 + 125_000 * i, fr) for i, (_t, fr) in enumerate(cap.pkts)]      # eighths of a second: exact in every resolution
     shas, bad = {}, []
     for v in vs:
-        data, legacy = render(pkts, v)
-        res = runner.run_inproc(data, kl, legacy=legacy)
+        data, legacy = render(pkts, v, kl)
+        res = runner.run_inproc(data, None if v.get("dsb") else kl, legacy=legacy)
         if res.crashed or res.out is None:
             bad.append((v, "run aborted: " + (res.exc or "no output").strip().splitlines()[-1]))
             continue
@@ -90,7 +96,7 @@ def run(chk):
     quick = chk.tier == "quick"
     rng = random.Random(chk.seed)
     CC = dict(NPkts="3", Resols='{"none","d3","d6","d9","b10","b20"}', Offsets="{0,3600}", ExtraKinds="{0,1,2,3}", PerInterface="TRUE")
-    r = tlc.run("Container", CC, invariants=["YieldedIndependentOfContainer", "YieldedIsPrefix"], timeout=600)
+    r = tlc.run("Container", CC, invariants=["YieldedIndependentOfContainer", "YieldedIsPrefix", "KeysYielded"], timeout=600)
     chk.tlc("Container variants", r)
     r0 = tlc.run("Container", dict(CC, PerInterface="FALSE", ExtraKinds="{}"), invariants=["YieldedIndependentOfContainer"], timeout=600)
     chk.tlc("Container: original reader (first interface's parameters for all) - documents the repaired defect", r0, expect_ok=False)
